@@ -9,7 +9,7 @@ CONSTANTS N = 3
  SignedGater = FALSE
  InnerProofPolicy = "reject"
  VCBatchPolicy = "none"
- AggBatchFor = "none"
+ AggBatchFor = "syncmsg"
  MemoVerifier = FALSE
  ReplayPolicy = "admit"
 INVARIANTS TypeOK OnlyValidEnter ValidEnters PeerAllOrNothing
